@@ -405,6 +405,8 @@ pub fn f_lib(_thorough: bool) -> Vec<Ty> {
         out.push(Ty::Map(k, b(p(U32)), b(p(String))));
         out.push(Ty::Map(k, b(p(String)), b(Ty::Seq(Vec, b(p(U32))))));
         out.push(Ty::Map(k, b(p(U8)), b(leaf_p2())));
+        // value type mentions the key type again (recursion guard of the schema builder)
+        out.push(Ty::Map(k, b(p(U32)), b(Ty::Seq(Vec, b(p(U32))))));
     }
     for t in [p(U8), p(String), leaf_p2(), Ty::Seq(Vec, b(p(U8)))] {
         out.push(Ty::Opt(b(t.clone())));
